@@ -4,6 +4,7 @@ import (
 	"fmt"
 	"os"
 	"strings"
+	"tinkverif/rules"
 
 	"tinkverif/core"
 	"tinkverif/effects"
@@ -30,5 +31,17 @@ func dumpReach(args []string) {
 			}
 			fmt.Println("    ", k)
 		}
+	}
+}
+
+func dumpAuth(args []string) {
+	p, err := core.Load(core.RepoDir(), "", nil)
+	if err != nil {
+		fmt.Fprintln(os.Stderr, err)
+		os.Exit(2)
+	}
+	ctx := &rules.Ctx{P: p, R: core.NewReport("dbg", "quick", 0)}
+	for _, l := range rules.DebugAuth(ctx, args[0]) {
+		fmt.Println(l)
 	}
 }
